@@ -208,7 +208,12 @@ func (r Rule) Apply(facts *FactSet, newFacts *FactSet, syms *SymbolTable) error 
 		}
 	}
 
-	combinations := combine(variables, r.Body, r.Expressions, facts, syms)
+	// closing done on return releases the producer goroutine when we stop
+	// consuming combinations early (expression error, invalid rule)
+	done := make(chan struct{})
+	defer close(done)
+
+	combinations := combine(done, variables, r.Body, r.Expressions, facts, syms)
 
 	for res := range combinations {
 		if res.error != nil {
@@ -482,7 +487,7 @@ func (m MatchedVariables) Clone() MatchedVariables {
 	return res
 }
 
-func combine(variables MatchedVariables, predicates []Predicate, expressions []Expression, facts *FactSet, syms *SymbolTable) <-chan struct {
+func combine(done <-chan struct{}, variables MatchedVariables, predicates []Predicate, expressions []Expression, facts *FactSet, syms *SymbolTable) <-chan struct {
 	MatchedVariables
 	error
 } {
@@ -565,10 +570,13 @@ func combine(variables MatchedVariables, predicates []Predicate, expressions []E
 						res, err := e.Evaluate(complete_vars, syms)
 						if err != nil {
 							fmt.Printf("expression error: %+v", err)
-							c <- struct {
+							select {
+							case c <- struct {
 								MatchedVariables
 								error
-							}{complete_vars, err}
+							}{complete_vars, err}:
+							case <-done:
+							}
 
 							return
 						}
@@ -580,10 +588,14 @@ func combine(variables MatchedVariables, predicates []Predicate, expressions []E
 
 					if valid {
 						//fmt.Printf("sending valid variables %+v\n", complete_vars)
-						c <- struct {
+						select {
+						case c <- struct {
 							MatchedVariables
 							error
-						}{complete_vars, nil}
+						}{complete_vars, nil}:
+						case <-done:
+							return
+						}
 					}
 				} else {
 					// if all predicates match but variables are not complete, it means
